@@ -687,6 +687,18 @@ package main
 //@   case_calls *ast.ValueSpec: addHashedWithPackage
 //@   ensures @temp-dir-removed-on-every-exit: [C19] tempMade && !old(tempMade) ==> removed[tempDir]
 //@   ensures @exit-status-tells-whether-anything-was-replaced: r0 == nil && !old(rcChanged) ==> rcChanged
+//@   loop 0
+//@     invariant @replacement-list-is-made-of-obfuscated-original-pairs: len(replaces) % 2 == 0
+//@   loop 1
+//@     invariant len(replaces) % 2 == 0
+//@   loop 2
+//@     invariant len(replaces) % 2 == 0
+//@   loop 3
+//@     invariant len(replaces) % 2 == 0
+//@   loop 4
+//@     invariant len(replaces) % 2 == 0
+//@   loop 5
+//@     invariant len(replaces) % 2 == 0
 //@   loop 6
 //@     invariant rcChanged == (entry(rcChanged) || anyModified)
 //@ end
@@ -778,7 +790,10 @@ package main
 //@ end
 
 //@ hookset revkey
+//@ hook before strings.NewReplacer(pairs...)
+//@   assert("[C04] replacer-is-given-whole-pairs", len(replaces) % 2 == 0)
 //@ hook after fmt.Sprintf(format, args...) (r)
+//@   assert("[C04] positions-are-restored-as-import-path-slash-file-colon-line", format == "%s:%d" || format == "%s/%s:%d" || format == "%s/%s")
 //@   if format == "%s:%d" && goFile != "" { assert("[C04] reverse-key-names-the-file-the-tree-was-parsed-from", filepath.Base(goFile) == filepath.Base(parsedAt[i])) }
 //@   if format == "%s:%d" { assert("[C04] reverse-key-uses-the-base-name-like-the-build", goFile == filepath.Base(goFile)) }
 //@ hook before mvdan.cc/garble.hashWithPackage(pkg, name)
